@@ -73,6 +73,9 @@ func GenC12(seed uint64) *Plan {
 		types := []string{"address", "uint256", "uint64", "bytes32", "string", "address", "uint8"}
 		nIdx := 0
 		withRef := g.chance(25)
+		secondRef := false
+		nestedRef := false
+		_ = nestedRef
 		arrayAt := -1
 		nin := g.between(2, 4)
 		if g.chance(25) {
@@ -113,9 +116,38 @@ func GenC12(seed uint64) *Plan {
 				rd.Table.Columns = []model.Col{{Name: "c_pool", Type: "bytea"}, {Name: "c_x", Type: "numeric"}}
 				p.Decls = append(p.Decls, rd)
 				p.Content.Events = append(p.Content.Events, EventSpec{Event: refEv})
-				p.Content.Seeded = append(p.Content.Seeded, SeededLogs{Event: refEv, AddrInput: 0, UpTo: 3})
+				p.Content.Seeded = append(p.Content.Seeded, SeededLogs{Event: refEv, AddrInput: 0, UpTo: 3, Only: []int{0, 1}})
 				p.Checks["deps"] = true
-				addCol(in.Column, ABIColType(in.Type))
+				if !in.Indexed && g.chance(35) {
+					// the looked-up address sits inside a tuple
+					inner := in
+					inner.Name = in.Name + "c0"
+					in = model.Input{Name: in.Name, Type: g.pick([]string{"tuple", "(address,uint64)"}), Components: []model.Input{
+						inner,
+						{Name: in.Name + "c1", Type: "uint64", Column: "c_" + in.Name + "c1"},
+					}}
+					addCol("c_"+in.Name+"c1", "numeric")
+					addCol(inner.Column, "bytea")
+					nestedRef = true
+				}
+				if g.chance(50) {
+					// a second referenced table with a column of the same name
+					// and another membership, looked up by another field
+					refEv1 := &model.Event{Name: "Created1", Type: "event", Inputs: []model.Input{
+						{Name: "pool", Type: "address", Indexed: g.chance(50), Column: "c_pool"},
+						{Name: "x", Type: "uint256", Column: "c_x"},
+					}}
+					rd1 := &model.Decl{Name: "ref1", Enabled: true, Event: refEv1, Sources: []model.SrcRef{{Name: sp.Name, Start: 1}}}
+					rd1.Table.Name = "t_ref1"
+					rd1.Table.Columns = []model.Col{{Name: "c_pool", Type: "bytea"}, {Name: "c_x", Type: "numeric"}}
+					p.Decls = append(p.Decls, rd1)
+					p.Content.Events = append(p.Content.Events, EventSpec{Event: refEv1})
+					p.Content.Seeded = append(p.Content.Seeded, SeededLogs{Event: refEv1, AddrInput: 0, UpTo: 3, Only: []int{1, 2}})
+					secondRef = true
+				}
+				if in.Column != "" {
+					addCol(in.Column, ABIColType(in.Type))
+				}
 				ev.Inputs = append(ev.Inputs, in)
 				continue
 			}
@@ -140,9 +172,12 @@ func GenC12(seed uint64) *Plan {
 		d.Event = ev
 		p.Content.Events = append(p.Content.Events, EventSpec{Event: ev})
 		p.Content.Events = append(p.Content.Events, g.Decoys(ev)...)
-		if g.chance(60) {
+		if g.chance(60) || secondRef {
 			f := model.Field{Name: "log_addr", Column: "log_addr"}
-			if g.chance(80) {
+			if secondRef {
+				f.Filter = &model.Filter{Op: g.pick([]string{"contains", "contains", "!contains"}), Ref: &model.Ref{Integration: "ref1", Column: "c_pool"}}
+				nflt++
+			} else if g.chance(80) {
 				f.Filter = g.filterFor("bytes", 0, p.Content.Addrs)
 				nflt++
 			}
